@@ -12,3 +12,158 @@ pub mod fp {
         raw_ops_u8, RawFieldOps,
     };
 }
+
+/// Thin public wrappers around the crate-private NTT and Lagrange-basis polynomial routines (H2).
+pub mod poly {
+    use crate::field::NttFriendlyFieldElement;
+    pub use crate::ntt::NttError;
+
+    /// [`crate::ntt::ntt`]
+    pub fn ntt<F: NttFriendlyFieldElement>(outp: &mut [F], inp: &[F], size: usize) -> Result<(), NttError> {
+        crate::ntt::ntt(outp, inp, size)
+    }
+    /// [`crate::ntt::ntt_set_s`]
+    pub fn ntt_set_s<F: NttFriendlyFieldElement>(outp: &mut [F], inp: &[F], size: usize) -> Result<(), NttError> {
+        crate::ntt::ntt_set_s(outp, inp, size)
+    }
+    /// [`crate::ntt::ntt_inv`]
+    pub fn ntt_inv<F: NttFriendlyFieldElement>(outp: &mut [F], inp: &[F], size: usize) -> Result<(), NttError> {
+        crate::ntt::ntt_inv(outp, inp, size)
+    }
+    /// [`crate::ntt::get_ntt`]
+    pub fn get_ntt<F: NttFriendlyFieldElement>(inp: &[F], size: usize) -> Result<Vec<F>, NttError> {
+        crate::ntt::get_ntt(inp, size)
+    }
+    /// [`crate::ntt::get_ntt_inv`]
+    pub fn get_ntt_inv<F: NttFriendlyFieldElement>(inp: &[F], size: usize) -> Result<Vec<F>, NttError> {
+        crate::ntt::get_ntt_inv(inp, size)
+    }
+    /// [`crate::ntt::ntt_inv_finish`]
+    pub fn ntt_inv_finish<F: NttFriendlyFieldElement>(outp: &mut [F], size: usize, size_inv: F) {
+        crate::ntt::ntt_inv_finish(outp, size, size_inv)
+    }
+    /// [`crate::polynomial::poly_eval_lagrange_batched`]
+    pub fn poly_eval_lagrange_batched<F: NttFriendlyFieldElement, P: AsRef<[F]>>(polynomials: &[P], x: F) -> Vec<F> {
+        crate::polynomial::poly_eval_lagrange_batched(polynomials, x)
+    }
+    /// [`crate::polynomial::nth_root_powers`]
+    pub fn nth_root_powers<F: NttFriendlyFieldElement>(n: usize) -> Vec<F> {
+        crate::polynomial::nth_root_powers(n)
+    }
+    /// [`crate::polynomial::extend_values_to_power_of_2`]
+    pub fn extend_values_to_power_of_2<F: NttFriendlyFieldElement>(polynomial: &mut [F], num_values: usize) {
+        crate::polynomial::extend_values_to_power_of_2(polynomial, num_values)
+    }
+    /// [`crate::polynomial::double_evaluations`]
+    pub fn double_evaluations<F: NttFriendlyFieldElement>(output: &mut [F], evaluations: &[F]) -> Result<(), NttError> {
+        crate::polynomial::double_evaluations(output, evaluations)
+    }
+    /// [`crate::polynomial::poly_mul_lagrange`]
+    pub fn poly_mul_lagrange<F: NttFriendlyFieldElement>(output: &mut [F], p: &[F], q: &[F]) -> Result<(), NttError> {
+        crate::polynomial::poly_mul_lagrange(output, p, q)
+    }
+    /// [`crate::polynomial::poly_range_check`]
+    pub fn poly_range_check<F: NttFriendlyFieldElement>(start: usize, end: usize) -> Vec<F> {
+        crate::polynomial::poly_range_check(start, end)
+    }
+    /// [`crate::polynomial::poly_interpret_eval`]
+    pub fn poly_interpret_eval<F: NttFriendlyFieldElement>(points: &[F], eval_at: F, tmp_coeffs: &mut [F]) -> F {
+        crate::polynomial::poly_interpret_eval(points, eval_at, tmp_coeffs)
+    }
+    /// [`crate::polynomial::poly_eval_monomial`]
+    pub fn poly_eval_monomial<F: NttFriendlyFieldElement>(poly: &[F], eval_at: F) -> F {
+        crate::polynomial::poly_eval_monomial(poly, eval_at)
+    }
+    /// [`crate::polynomial::poly_mul_monomial`]
+    pub fn poly_mul_monomial<F: NttFriendlyFieldElement>(p: &[F], q: &[F]) -> Vec<F> {
+        crate::polynomial::poly_mul_monomial(p, q)
+    }
+    /// [`crate::polynomial::poly_deg`]
+    pub fn poly_deg<F: NttFriendlyFieldElement>(p: &[F]) -> usize {
+        crate::polynomial::poly_deg(p)
+    }
+}
+
+/// Field sampling from an arbitrary byte source through the crate-private `Prng` (H5).
+pub mod prng {
+    use crate::field::FieldElement;
+    use crate::prng::Prng;
+    use rand::Rng;
+
+    /// The first `n` elements of `Prng::<F, _>::from_seed_stream(stream)`.
+    pub fn prng_take<F: FieldElement, S: Rng>(stream: S, n: usize) -> Vec<F> {
+        Prng::<F, S>::from_seed_stream(stream).take(n).collect()
+    }
+
+    /// `n1` elements of `F1`, then switch the same generator to `F2` via `into_new_field` and take
+    /// `n2` elements, then back to `F1` for `n3` more (continuity of the underlying stream).
+    #[cfg(all(feature = "crypto-dependencies", feature = "experimental"))]
+    pub fn prng_switch<F1: FieldElement, F2: FieldElement, S: Rng>(
+        stream: S,
+        n1: usize,
+        n2: usize,
+        n3: usize,
+    ) -> (Vec<F1>, Vec<F2>, Vec<F1>) {
+        let mut p1 = Prng::<F1, S>::from_seed_stream(stream);
+        let a: Vec<F1> = (0..n1).map(|_| p1.get()).collect();
+        let mut p2 = p1.into_new_field::<F2>();
+        let b: Vec<F2> = (0..n2).map(|_| p2.get()).collect();
+        let mut p3 = p2.into_new_field::<F1>();
+        let c: Vec<F1> = (0..n3).map(|_| p3.get()).collect();
+        (a, b, c)
+    }
+}
+
+/// Prio2 internals (H4).
+#[cfg(all(feature = "crypto-dependencies", feature = "experimental"))]
+pub mod prio2 {
+    use crate::field::FieldPrio2;
+    use crate::prng::Prng;
+    use crate::vdaf::prio2::Prio2;
+    use rand::Rng;
+    use std::cell::Cell;
+
+    /// The query point `Prio2::choose_eval_at` derives from the given byte source.
+    pub fn choose_eval_at<S: Rng>(vdaf: &Prio2, stream: S) -> FieldPrio2 {
+        let mut prng = Prng::<FieldPrio2, S>::from_seed_stream(stream);
+        vdaf.choose_eval_at(&mut prng)
+    }
+
+    thread_local! {
+        static HELPER_SEED: Cell<Option<[u8; 32]>> = const { Cell::new(None) };
+    }
+
+    /// Fix the helper seed drawn by `Prio2::shard` on this thread (the only randomness it uses).
+    pub fn set_shard_helper_seed(seed: Option<[u8; 32]>) {
+        HELPER_SEED.with(|s| s.set(seed));
+    }
+
+    pub(crate) fn shard_helper_seed_override() -> Option<[u8; 32]> {
+        HELPER_SEED.with(|s| s.get())
+    }
+}
+
+/// IDPF key generation with caller-supplied randomness (H6).
+#[cfg(all(feature = "crypto-dependencies", feature = "experimental"))]
+pub mod idpf {
+    use crate::idpf::{Idpf, IdpfInput, IdpfPublicShare, IdpfValue};
+    use crate::vdaf::{xof::Seed, VdafError};
+
+    /// [`Idpf::gen`] with the two 16-byte key seeds supplied by the caller.
+    pub fn gen_with_random<VI: IdpfValue, VL: IdpfValue, M: IntoIterator<Item = VI>>(
+        idpf: &Idpf<VI, VL>,
+        input: &IdpfInput,
+        inner_values: M,
+        leaf_value: VL,
+        ctx: &[u8],
+        nonce: &[u8],
+        random: &[[u8; 16]; 2],
+    ) -> Result<(IdpfPublicShare<VI, VL>, [Seed<16>; 2]), VdafError> {
+        idpf.gen_with_random(input, inner_values, leaf_value, ctx, nonce, random)
+    }
+}
+
+/// Differential-privacy sampler layers: per-layer call wrappers and a thread-local intercept (H3).
+pub mod dp {
+    pub use crate::dp::distributions::verif::*;
+}
